@@ -153,7 +153,7 @@ def sim_check(prop, tier, seed, scenarios, spec, rule_filter, required_counters,
                 continue
             sc = scenarios[k] if k is not None else {}
             sig = f"{spec}:{rule}:{sc.get('family', '')}"
-            kf = next((x for x in known["findings"] if x["signature"] == sig), None)
+            kf = next((x for x in known["findings"] if sig.startswith(x["signature"])), None)
             if kf:
                 known_hits.setdefault(sig, {"sig": sig, "what": f"{kf['what']} [{sig}]", "count": 0})
                 known_hits[sig]["count"] += 1
